@@ -43,7 +43,7 @@ func init() {
 		ID:    "C19",
 		Level: "other",
 		Rule: "The registry of exported functions, types, variables and aliases of packages safehtml and safehtml/template is regenerated from /repo's current sources (go/parser) and linked into the monitor. Observed at run time: (1) reflect type identity of every parameter in the reviewed list policy/api_surface.json: a defined string-kind type declared in the library with an unexported name, and no exported function result, variable, field, alias or method result exposes such a type; any exported function or method of the registry that takes a plain string where the reviewed list demands a constant fails the check; " +
-			"(2) each safe type is a struct with only unexported fields and no exported method mutates it from caller strings; (3) dynamic taint probe: every exported function and every method of every exported type is called with a hostile payload in each parameter that carries caller strings (string, []string, map[string]string, []byte, interface{}, StyleProperties) and benign values elsewhere; a returned safe-type value (or HTML produced by a returned template) that contains the payload verbatim is a violation; (4) ParseFS patterns never read a canary file outside the TrustedFS root. " +
+			"(2) each safe type is a struct with only unexported fields, no exported method mutates it from caller strings, and no other exported type of the registry (nor string, []byte or a look-alike struct) is convertible to it (reflect.Type.ConvertibleTo); (3) dynamic taint probe: every exported function and every method of every exported type is called with a hostile payload in each parameter that carries caller strings (string, []string, map[string]string, []byte, interface{}, StyleProperties) and benign values elsewhere; a returned safe-type value (or HTML produced by a returned template) that contains the payload verbatim is a violation; (4) ParseFS patterns never read a canary file outside the TrustedFS root. " +
 			"Not observable by this technique: that the Go compiler rejects a given client program; it is inferred from (1) under the Go specification's assignability and export rules.",
 		Assumptions: []string{"Go specification: a value of an unexported defined string type of another package can only be produced by an untyped constant (assignability) — stated assumption, not observed", "policy/api_surface.json is the reviewed list of constant-gated parameters and safe types"},
 		Run:         run,
@@ -521,6 +521,36 @@ func run(c *core.Ctx) {
 		}
 	}
 
+	// ---- clause 2b: no conversion between safe types, or from any other exported type or
+	// basic type, yields a safe type (Go converts between struct types whose underlying
+	// types are identical; found as K36)
+	var tnames []string
+	for n := range reg.Types {
+		tnames = append(tnames, n)
+	}
+	sort.Strings(tnames)
+	basics := map[string]reflect.Type{"string": reflect.TypeOf(""), "[]byte": reflect.TypeOf([]byte(nil)), "struct{str string}": reflect.TypeOf(struct{ str string }{}), "struct{}": reflect.TypeOf(struct{}{})}
+	for dst, dname := range e.safe {
+		for _, sn := range tnames {
+			src := reg.Types[sn]
+			if src == dst {
+				continue
+			}
+			c.Eval(1)
+			c.DistinctS("convertible", sn+"->"+dname)
+			if src.ConvertibleTo(dst) {
+				c.Violation(kase{Clause: "convertible", Item: dname + "<-" + sn}, "a value of type %s converts to the safe type %s (identical underlying types): the client expression %s(v) compiles and carries the contents over without the sanitization %s stands for", sn, dname, dname, dname)
+			}
+		}
+		for bn, bt := range basics {
+			c.Eval(1)
+			c.DistinctS("convertible", bn+"->"+dname)
+			if bt.ConvertibleTo(dst) {
+				c.Violation(kase{Clause: "convertible", Item: dname + "<-" + bn}, "a %s converts to the safe type %s", bn, dname)
+			}
+		}
+	}
+
 	// ---- clause 3: dynamic taint probe over functions and methods
 	fnames := make([]string, 0, len(reg.Funcs))
 	for n := range reg.Funcs {
@@ -534,7 +564,7 @@ func run(c *core.Ctx) {
 		c.Journal(util.JSON(kase{Clause: "taint", Item: name}))
 		e.probe(name, reflect.ValueOf(reg.Funcs[name]), nil)
 	}
-	tnames := make([]string, 0, len(reg.Types))
+	tnames = tnames[:0]
 	for n := range reg.Types {
 		tnames = append(tnames, n)
 	}
